@@ -47,6 +47,40 @@ def _ctx_motif(rng):
             "svs": 2, "yield_only": True, "reentry": False, "faults": faults, "prio": gen.gen_prio(rng, 3)}
 
 
+def _overflow_motif(rng):
+    """A nested synchronous computation dies of the runaway-recursion guard; the enclosing task
+    handles the RuntimeError and goes on with ordinary work - it must finish with its value."""
+    width = rng.randint(5, 9)
+    limit = rng.randint(3, width - 1)
+    pre = [["y", ["item", rng.randint(0, 2), 0]]] if rng.random() < 0.5 else []
+    post = [["y", ["item", rng.randint(0, 2), rng.randint(0, 5)]] for _ in range(rng.randint(1, 2))]
+    root = pre + [["try", [["s", ["call", 1, []], rng.choice(["call", "value"])]], "all", []]] + post
+    wide = [["y", [rng.choice(["t", "l"]), [["call", 2, []] for _ in range(width)]]]]
+    leaf = [["y", ["item", rng.randint(0, 2), 1]]] if rng.random() < 0.7 else []
+    templates = [{"kind": "fn", "steps": root}, {"kind": "fn", "steps": wide}, {"kind": "fn", "steps": leaf}]
+    if rng.random() < 0.4:
+        # the handler lives one level further out
+        templates = [{"kind": "fn", "steps": [["y", ["call", 1, []]]]}] + [
+            {"kind": t["kind"], "steps": _shift_calls(t["steps"])} for t in templates]
+    return {"templates": templates, "root": {"tmpl": 0, "conv": rng.choice(["call", "value"])}, "kinds": 3, "svs": 2,
+            "yield_only": False, "reentry": True, "faults": {"items": {}, "flushes": {}, "ctx": {}}, "prio": gen.gen_prio(rng, 3),
+            "max_stack": limit + (1 if len(templates) == 4 else 0), "expect": "value"}
+
+
+def _shift_calls(steps):
+    import copy
+    steps = copy.deepcopy(steps)
+
+    def walk(x):
+        if isinstance(x, list):
+            if x and x[0] == "call" and isinstance(x[1], int):
+                x[1] += 1
+            for c in x:
+                walk(c)
+    walk(steps)
+    return steps
+
+
 class C08(ProgProp):
     id = "C08"
     report = ("C08",)
@@ -64,7 +98,13 @@ class C08(ProgProp):
                 cfg["p_sync"] = 0.0
             spec = gen.gen_program(rng, cfg)
             f = spec["faults"]
-            if rng.random() < 0.2:
+            r1 = rng.random()
+            if r1 < 0.08:
+                spec = _overflow_motif(rng)
+                f = spec["faults"]
+                hist.append(spec)
+                continue
+            if r1 < 0.28:
                 spec = _ctx_motif(rng)
                 f = spec["faults"]
             elif rng.random() < 0.35:
@@ -106,10 +146,17 @@ class C08(ProgProp):
             for (p, c, m, n) in B.violations:
                 if p == "C08":
                     out.append((c, "computation #%d (%s): %s" % (i + 1, otxt[1] if otxt[0] == "E" else "value", m)))
+            if o[0] == "E" and getattr(B, "root_computed", False) and B.root_error is None and s["root"].get("conv") != "wrapped":
+                out.append(("internal-error", "computation #%d: the outermost call raised %s although the awaited task completed with a value" % (i + 1, otxt[1])))
+            if spec.get("expect") == "value":
+                if o[0] != "V":
+                    out.append(("handled-overflow", "computation #%d: a nested synchronous computation was stopped by the runaway guard and the enclosing task handled that RuntimeError, yet the computation ended with %s instead of its value" % (i + 1, otxt[1])))
             if o[0] == "E" and isinstance(o[1], A.FutureIsAlreadyComputed):
                 out.append(("internal-error", "computation #%d ended with asynq's internal FutureIsAlreadyComputed instead of an exception from a task, future, flush or context" % (i + 1)))
             st = {"events": len(B.trace), "flushes": len(B.flushes), "sim_us": real.simenv.clock.elapsed(),
                   "probes": dict(B.probes), "faults": dict(B.faults_fired), "tasks": len(B.insts), "runs": 1}
+            if spec.get("expect") == "value" and B.probes.get("caught", 0) >= 1:
+                st["faults"]["runaway_guard_handled_by_enclosing_task"] = 1
             if o[0] == "E":
                 st["probes"]["computation_failed"] = 1
                 if isinstance(o[1], RuntimeError) and "exceeded maximum" in str(o[1]):
